@@ -70,7 +70,7 @@ def generate(rng, tier, index):
     nsave = 0
     for i in range(nops):
         k = o.weighted([("steps", 30), ("integrate", 10), ("save", 22 if nsave < 4 else 0), ("add", 5), ("remove", 5), ("sync", 5), ("set", 5), ("move", 4),
-                        ("clock_jump", 4), ("energy", 3), ("auto", 4 if nsave < 4 else 0)])
+                        ("clock_jump", 4), ("energy", 3), ("auto", 4 if nsave < 4 else 0), ("switch", 3 if not cfg.get("box") else 0), ("reset_integrator", 2 if not cfg.get("box") else 0)])
         if k == "steps":
             ops.append(dict(op="steps", n=o.randint(1, 25)))
         elif k == "integrate":
@@ -89,6 +89,11 @@ def generate(rng, tier, index):
         elif k == "set":
             path, vals = o.choice(SETS)
             ops.append(dict(op="set", path=path, value=o.choice(vals)))
+        elif k == "switch":
+            ni = o.choice([x for x in simgen.INTEGRATORS_ALL if x != "sei"])
+            ops.append(dict(op="switch", integrator=ni, opts=simgen.integrator_opts(o, ni)))
+        elif k == "reset_integrator":
+            ops.append(dict(op="reset_integrator"))
         elif k == "move":
             ops.append(dict(op="move", pick=o.randint(0, 50), dx=o.uniform(-1e-3, 1e-3), dvy=o.uniform(-1e-3, 1e-3), fm=o.choice([1.0, 1.5])))
         elif k == "clock_jump":
@@ -148,12 +153,16 @@ def execute(case, ctx):
             pass
         return False
 
+    uses_tree = cfg.get("gravity") == "tree" or cfg.get("collision") in ("tree", "linetree")
+
     def xview_diff(a, b):
         out = []
         for path in rb.SIM.order:
             off, size, kind, decl = rb.SIM.m[path]
             if kind in ("ptr", "fptr") or transient(path):
                 continue
+            if uses_tree and path == "N":
+                continue        # flagged particles are dropped by the restore (compared through the particle multiset)
             if rb.rawf(a, path) != rb.rawf(b, path):
                 out.append(path)
         return out
@@ -183,6 +192,9 @@ def execute(case, ctx):
 
     def check_restored(R, label, drop=()):
         sO, sR = rb.S(O, drop=drop), rb.S(R, drop=drop)
+        if uses_tree:
+            # a particle flagged for deferred removal (merge in the last step) is dropped by the restore; order is unspecified with a tree
+            sO, sR = rb.canon_particle_order(rb.drop_flagged(sO)), rb.canon_particle_order(rb.drop_flagged(sR))
         d = rb.S_diff(sO, sR)
         if d:
             viol("restore", "persisted content differs after restore", "%s: fields %s" % (label, rb.describe_fields(d)), key="restore:S:" + ",".join(str(x) for x in d[:3]))
@@ -195,8 +207,6 @@ def execute(case, ctx):
         return True
 
     extra_drop = []
-
-    uses_tree = cfg.get("gravity") == "tree" or cfg.get("collision") in ("tree", "linetree")
 
     def compare_follow(label, R, what):
         dr = WT + tuple(extra_drop)
